@@ -560,6 +560,7 @@ def analyse(unit, gen_path, gen_text, res):
     ranges = fn_ranges(gen_text)
     failed, panic, undecided, termination = {}, [], [], []
     bad_hints = set()
+    bad_hints_compile = set()   # proof steps that no longer TYPE-CHECK against the code (scaffolding lost)
     canary = False
     extracted_fns = set(f['function'] for f in unit.fns_under_contract)
     if res['timeout']:
@@ -585,6 +586,7 @@ def analyse(unit, gen_path, gen_text, res):
                             hint_ids.append(cid)
             if hint_ids and not UNDECIDED_MSG.search(msg):
                 bad_hints.update(hint_ids)
+                bad_hints_compile.update(hint_ids)
                 continue
             if UNDECIDED_MSG.search(msg):
                 undecided.append('verus: ' + msg.split('\n')[0])
@@ -651,7 +653,7 @@ def analyse(unit, gen_path, gen_text, res):
     vr = (js or {}).get('verification-results', {})
     if vr.get('encountered-vir-error'):
         undecided.append('verus vir error: ' + res['stderr'][:600])
-    return dict(failed=failed, panic=panic, undecided=undecided, canary=canary, termination=termination, bad_hints=bad_hints,
+    return dict(failed=failed, panic=panic, undecided=undecided, canary=canary, termination=termination, bad_hints=bad_hints, bad_hints_compile=bad_hints_compile,
                 verified=vr.get('verified'), errors=vr.get('errors'))
 
 
@@ -705,6 +707,7 @@ def run_unit(uid, tier='quick', repo=REPO, keep=None, seed=0):
     scratch = tempfile.mkdtemp(prefix='vx-%s-' % uid)
     try:
         dropped = set()
+        dropped_compile = set()
         passes = 0
         while True:
             passes += 1
@@ -728,6 +731,7 @@ def run_unit(uid, tier='quick', repo=REPO, keep=None, seed=0):
                 rl *= 4
             res = run_verus(gen_path, u, rl)
             an = analyse(u, gen_path, gen, res)
+            dropped_compile |= set(an.get('bad_hints_compile', ()))
             new_bad = set(an['bad_hints']) - dropped
             if new_bad and passes < 8:
                 dropped |= new_bad
@@ -752,6 +756,8 @@ def run_unit(uid, tier='quick', repo=REPO, keep=None, seed=0):
             notes.append('canary not reported as failing (verifier did not run obligations?)')
         if 'CANARY' not in gen:
             notes.append('template has no canary')
+        scaffolding_lost = sorted(set(u.lost_hints) | dropped_compile)
+        r['scaffolding_lost'] = scaffolding_lost
         if an['failed'] or an['panic'] or an['termination']:
             r['status'] = 'violation'
         elif notes:
@@ -760,6 +766,19 @@ def run_unit(uid, tier='quick', repo=REPO, keep=None, seed=0):
         # replay search for failed clauses
         if r['status'] == 'violation' and u.has_replay:
             r['replay'] = run_replay(u, gen_path, scratch, list(an['failed'].keys()) + [p['id'] for p in an['panic']], seed)
+        if r['status'] == 'violation' and scaffolding_lost and os.environ.get('VX_SCAFFOLD_POLICY', 'report') == 'undecided':
+            found = any((v or {}).get('found') for v in (r.get('replay') or {}).values() if isinstance(v, dict))
+            if not found:
+                # (optional, conservative policy; default is to REPORT: a contract clause that was discharged on the unchanged
+                # tree and is not any more, with the dropped proof steps listed in the replay file)
+                # proof steps whose anchor disappeared or that no longer type-check were removed: the remaining proof is
+                # not the one that was accepted on the unchanged tree, so an unprovable clause is NOT evidence of a
+                # violation (a renamed local or a reformatted line would do the same).  Undecided, never an alarm.
+                r['status'] = 'undecided'
+                r['downgraded'] = dict(failed=sorted(an['failed'].keys()), panic=[p['id'] for p in an['panic']])
+                r['notes'] = notes + ['proof scaffolding no longer fits the code (proof steps lost or no longer type-checking: %s); obligations not discharged without them: %s'
+                                      % (', '.join(scaffolding_lost), ', '.join(sorted(an['failed'].keys()) + [p['id'] for p in an['panic']]))]
+                r['failed'], r['panic'], r['termination'] = {}, [], []
         return r
     finally:
         r['wall_s'] = round(time.time() - t0, 2)
